@@ -35,7 +35,8 @@ RULE = ("an observation sequence of 1-40 update(value,total) calls x a "
         "(append_all_results, then merge_all_results under random groupings); "
         "combine grids use parameter names whose text order differs from their "
         "numeric order. "
-        "Combine is driven with all four result types and with grids around zero; the accumulate flag reaches Result as bool / numpy bool / 0-1. ")
+        "Combine is driven with all four result types and with grids around zero; the accumulate flag reaches Result as bool / numpy bool / 0-1. "
+        "A fifth of the chunk sets, 30 % of the combined sets and 40 % of the intermediate unions go through dict / JSON before they are merged. ")
 ASSUMPTIONS = ["chunks are non-empty (a MISC result merged with a never-updated "
                "operand is outside 'the last observation wins')",
                "statistics are read through the public to_dict()/getters"]
@@ -255,6 +256,18 @@ def case_result(ctx, rng, idx):
                                    for i in range(k)], detail=tag)
     if not okc:
         return
+    if vclass == "exact" and rng.random() < 0.2:
+        # the chunks come from files: stored as dict / JSON by the workers and
+        # loaded again before they are merged
+        how = "dict" if rng.random() < 0.5 else "json"
+        okc, parts = ctx.call(
+            "grouping-independent",
+            lambda: [Result.from_dict(r.to_dict()) if how == "dict" else
+                     Result.from_json(r.to_json()) for r in parts],
+            cls="chunks-stored-and-loaded:raised", detail=tag)
+        if not okc:
+            return
+        tag["chunks_stored_as"] = how
     tag["bounds"] = bounds
     log = OperandLog(ctx, "operand-not-mutated", tag)
     okc, merged = ctx.call(
@@ -510,6 +523,15 @@ def case_combine(ctx, rng, idx):
     if not (okc and okc2):
         return
     (sr1, st1), (sr2, st2) = r1, r2
+    if rng.random() < 0.3:
+        # the two sets are read from result files (JSON) before they are combined
+        okc, both = ctx.call("combine-per-combination", lambda: [
+            SimulationResults.from_json(x.to_json()) for x in (sr1, sr2)],
+            cls="sets-stored-and-loaded:raised", detail=tag)
+        if not okc:
+            return
+        sr1, sr2 = both
+        tag["sets_loaded_from_json"] = True
     s1, s2 = snap_set(sr1), snap_set(sr2)
     okc, union = ctx.call("combine-per-combination", combine_simulation_results, sr1, sr2,
                           detail=tag)
@@ -548,8 +570,12 @@ def case_combine(ctx, rng, idx):
         if okc:
             sr3, st3 = r3
             tag3 = {**tag, "values3": {k: v.tolist() for k, v in v3.items()}}
+            stored = rng.random() < 0.4      # the intermediate union goes through a JSON file
+            tag3["intermediate_union_stored_as_json"] = stored
+            keep = (lambda u: SimulationResults.from_json(u.to_json())) if stored else (lambda u: u)
             okc, ua = ctx.call("combine-per-combination", lambda: combine_simulation_results(
-                combine_simulation_results(sr1, sr2), sr3), cls="nested:(A+B)+C raised", detail=tag3)
+                keep(combine_simulation_results(sr1, sr2)), sr3), cls="nested:(A+B)+C raised",
+                detail=tag3)
             okc2, ub = ctx.call("combine-per-combination", lambda: combine_simulation_results(
                 sr1, combine_simulation_results(sr2, sr3)), cls="nested:A+(B+C) raised", detail=tag3)
             if okc and okc2:
